@@ -330,6 +330,49 @@ def case(ctx, i, rng):
         ctx.sample(dict(base_w, faults=[(k, short(d, 60)) for k, d in faults]))
 
 
+def path_content_case(ctx, i, rng):
+    """save_path_content: the file a path value points to is saved next to the configuration. Saving into the directory the
+    file lives in (overwrite requested) or elsewhere never leaves the user's file changed, and the saved path parses back."""
+    from jsonargparse.typing import Path_fr
+
+    d = os.path.join(ctx.workdir, f"pc{i % 6}")
+    shutil.rmtree(d, ignore_errors=True)
+    os.makedirs(os.path.join(d, "elsewhere"))
+    data = os.path.join(d, "file.txt")
+    content = f"file content {i}\nsecond line\n"
+    with open(data, "w") as f:
+        f.write(content)
+
+    def mk():
+        q = ArgumentParser(exit_on_error=False)
+        q.add_argument("--cfg", action=ActionConfigFile)
+        q.add_argument("--the.path", type=Path_fr)
+        q.add_argument("--n", type=int, default=1)
+        q.save_path_content.add("the.path")
+        return q
+
+    q = mk()
+    o = call(q.parse_args, [f"--the.path={data}", f"--n={i % 9}"])
+    if not o.accepted:
+        ctx.inconclusive(f"path-content scenario not accepted: {o.brief()}")
+        return
+    where = rng.choice(["same-directory", "same-directory", "elsewhere"])
+    overwrite = where == "same-directory" or rng.random() < 0.5
+    target = os.path.join(d if where == "same-directory" else os.path.join(d, "elsewhere"), "saved.yaml")
+    os_, _ = do_save(q, o.value, target, True, overwrite)
+    ctx.count("mon.save_path_content")
+    ctx.evaluation(("c18-path-content", where, overwrite))
+    w = dict(step="save with save_path_content", where=where, overwrite=overwrite, outcome=os_.brief())
+    now = _read(data)
+    if now != content:
+        ctx.violation("save", f"file-referenced-by-a-path-value-changed-by-save/{where}/{'returning' if os_.accepted else 'raising'}", dict(w, before=content, after=now))
+        return
+    if os_.accepted:
+        ob = call(mk().parse_path, target)
+        if not ob.accepted or ob.value.n != o.value.n or _read(ob.value.the.path.absolute) != content:
+            ctx.violation("save", f"saved-config-differs/path-content/{where}", dict(w, reparse=ob.brief() if not ob.accepted else short(ob.value, 300)))
+
+
 def _read(path):
     try:
         with open(path) as f:
@@ -338,6 +381,12 @@ def _read(path):
         return f"<{ex}>"
 
 
+def run_shard_extra(ctx, i, rng):
+    if i % 5 == 1:
+        path_content_case(ctx, i, rng)
+
+
 def run_shard(ctx):
     for i, rng in ctx.cases():
         case(ctx, i, rng)
+        run_shard_extra(ctx, i, rng)
